@@ -22,7 +22,7 @@ func vGenWireRecord(r *rand.Rand, big bool) *DataRecord {
 	rec.channelIndex = vPick(r, 0, 1, 255, 256, 65535, r.Intn(65536))
 	n := vPick(r, 0, 1, 2, 7, 100, 1000)
 	if big {
-		n = vPick(r, 20000, 100000)
+		n = vPick(r, 20000, 65535, 65536, 65537, 100000, 200000) // beyond 16-bit counts
 	}
 	rec.data = make([]RawType, n)
 	for i := range rec.data {
@@ -293,7 +293,7 @@ func vRunC14(c *vCase) {
 	nA := 20
 	var shapes []string
 	for i := 0; i < nA; i++ {
-		rec := vGenWireRecord(r, c.Tier == "thorough" && i == 0)
+		rec := vGenWireRecord(r, i == 0 && (c.Tier == "thorough" || c.Idx%3 == 0))
 		shapes = append(shapes, fmt.Sprintf("ch%d/n%d/f%d/c%d", rec.channelIndex, len(rec.data), rec.trigFrame, len(rec.modelCoefs)))
 		if !vCheckRecordMsg(c, messageRecords(rec), rec) {
 			return
@@ -406,7 +406,7 @@ func init() {
 		Run: vRunC14,
 		Meta: vMeta{
 			Level: "exploration",
-			Rule:  "case = 20 generated records through messageRecords/messageSummaries directly plus 12 through the real PUB sockets to ZMQ SUB sockets in lock step (channel 0..65535, 0..100000 samples, signed/unsigned, extreme frames/times, NaN/Inf/denormal floats, 0..64 coefficients); every message is decoded with encoding/binary at the documented offsets and compared bit for bit; a third subscriber filtered on a 2-byte channel prefix must receive all and only that channel's records",
+			Rule:  "case = 20 generated records through messageRecords/messageSummaries directly plus 12 through the real PUB sockets to ZMQ SUB sockets in lock step (channel 0..65535, 0..200000 samples incl. 65535-65537, signed/unsigned, extreme frames/times, NaN/Inf/denormal floats, 0..64 coefficients); every message is decoded with encoding/binary at the documented offsets and compared bit for bit; a third subscriber filtered on a 2-byte channel prefix must receive all and only that channel's records",
 			Assumptions: []string{"summary header is 48 bytes (the document's prose says 36 but its own table ends at byte 48, as the property states)", "libzmq delivers in order on one connection; records are sent in lock step so the PUB high-water mark never drops one"},
 			Guards: map[string]map[string]int{
 				"quick":    {"record_msgs": 10000, "summary_msgs": 10000, "wire_roundtrips": 4000, "filtered_received": 1000},
